@@ -118,6 +118,7 @@ PROPS.update({
 })
 
 PROPS["C12"] = {
+    "mc": ["MC_SymbolList"],
     "level_text": "Trace_Sym: (a) the six observable attributes of all 48 sizes (dimensions, data and total codewords, is_square, is_dmre) are compared with the catalogue of Symbols.tla transcribed from ISO/IEC 16022 Table 7 / ISO 21471 (its ASSUMEs check module-count identity and uniqueness of dimensions); blocks and EC per block are pinned by the C06 run, region layout by C08. (b) SymbolList builder traces: every call is an action of the SymbolList machine; set, iteration order, is_empty, contains are compared after each call. (c) every Probe (ASCII-only encoding of n characters) must pick FirstBigEnough of the list's own order.",
     "level_note": "Trusts: Symbols.tla transcription. Width/height filters are enumerated for all bound kinds (unbounded/included/excluded) at every distinct dimension +-1 (thorough: 0..151).",
     "jobs": [{"family": "sym", "spec": "Trace_Sym", "coverage": True},
@@ -202,10 +203,11 @@ MC = {
     "MC_Codec": {"spec": "MC_Codec", "must_take": ["Write", "StartRead", "Read"], "timeout": 1800},
     "MC_Codec_thorough": {"spec": "MC_Codec", "cfg": "MC_Codec_thorough.cfg", "must_take": ["Write", "StartRead", "Read"], "timeout": 3400},
     "MC_Planner": {"spec": "MC_Planner", "must_take": ["PIterate"], "timeout": 600},
+    "MC_SymbolList": {"spec": "MC_SymbolList", "must_take": ["Next"], "timeout": 1200},
     "MC_Placement": {"spec": "MC_Placement", "must_take": ["Statement"], "timeout": 900},
 }
 HOOK_COMMITS = ["d90b018"]
-SETUP_MC = ["MC_Codec", "MC_Placement", "MC_Planner"]
+SETUP_MC = ["MC_Codec", "MC_Placement", "MC_Planner", "MC_SymbolList"]
 NOT_YET = {}
 
 
